@@ -351,7 +351,8 @@ class Slicer:
         # writes through &mut borrows of this local handed to calls (out-params)
         for bi, bb in enumerate(f.blocks):
             for s in bb["s"]:
-                if "d" in s and s["v"]["r"] == "ref" and s["v"].get("mut") and s["v"]["pl"]["l"] == l and not s["d"].get("p"):
+                if "d" in s and s["v"]["r"] == "ref" and s["v"].get("mut") and s["v"]["pl"]["l"] == l and not s["d"].get("p") \
+                        and not s["v"]["pl"].get("p"):
                     r = s["d"]["l"]
                     # find calls taking r (or a reborrow chain of r)
                     self._mut_uses(f, r, pv, depth, seen, 0)
